@@ -298,12 +298,15 @@ func genSortedIDs(rng *vh.RNG, n int) ([]seq.ID, []uint64) {
 	pos := make([]uint64, 0, n)
 	ids = append(ids, seq.ID{MID: seq.MID(^uint64(0)), RID: seq.RID(^uint64(0))})
 	pos = append(pos, 0)
-	mid := uint64(1_800_000_000_000)
+	mid := uint64(1_900_000_000_000)
 	rid := ^uint64(0) - uint64(rng.Intn(5))
 	for len(ids) < n {
 		switch rng.Intn(6) {
 		case 0, 1:
 			mid -= uint64(rng.Range(1, 50))
+			if rng.Chance(1, 40) { // a gap of 25..199 days: MID deltas of 32..34 bits
+				mid -= uint64(1)<<31 + rng.U64()%(uint64(1)<<34-uint64(1)<<31)
+			}
 			rid = rng.U64() | 1<<63
 		case 2: // duplicate id (nested documents)
 		default:
